@@ -1055,6 +1055,9 @@ public:
     }
 
     if (!is_tracked_region(rhs_rgn, rhs_rgn_info.type_val())) {
+      // Nothing is known about the contents of rhs_rgn so the old
+      // contents of lhs_rgn must be forgotten.
+      m_ghost_var_man.forget(lhs_rgn, m_base_dom);
       return;
     }
 
@@ -1119,6 +1122,11 @@ public:
     if (is_bottom()) {
       return;
     }
+
+    // The old contents of dst_rgn are overwritten even if the contents
+    // of src_rgn cannot be transferred (src_rgn and dst_rgn are
+    // different variables: exactly one of them is an unknown region).
+    m_ghost_var_man.forget(dst_rgn, m_base_dom);
 
     if (crab_domain_params_man::get().region_allocation_sites()) {
       m_alloc_env.set(dst_rgn, m_alloc_env.at(src_rgn));
